@@ -230,6 +230,22 @@ func Run(r *fw.Run) {
 			}
 		}
 	}
+	// collisions above the parent directory: every list of 2..4 paths over a mini pool with two files below
+	// the same deeper directory of a colliding ancestor
+	{
+		mini := []string{"sub/x.go", "SUB/deep/q.go", "SUB/deep/r.go", "SUB/z.go", "sub/deep/y.go", "a", "a/b/c", "a/b/d", "A/b/e", "a/B/f/g", "a/B/f/h"}
+		for i := range mini {
+			for j := i + 1; j < len(mini); j++ {
+				jobs = append(jobs, job{[]string{mini[i], mini[j]}})
+				for k := j + 1; k < len(mini); k++ {
+					jobs = append(jobs, job{[]string{mini[i], mini[j], mini[k]}})
+					for m := k + 1; m < len(mini); m++ {
+						jobs = append(jobs, job{[]string{mini[i], mini[j], mini[k], mini[m]}})
+					}
+				}
+			}
+		}
+	}
 	// byte sweep over names: alone and next to a fixed neighbour
 	for _, n := range zipx.SweepNames() {
 		jobs = append(jobs, job{[]string{n}}, job{[]string{"N", n}})
